@@ -211,3 +211,11 @@ Theorem C19_link_free_nonvacuous :
   validate_uri_src w_fs_live [w_sb] [100;47;46;46;47;100]%N = UOk [w_sb; [100]%N] /\
   validate_uri_src w_fs_live [w_sb] [108;110;107;100]%N = URefused.
 Proof. exact src_link_free_nonvacuous. Qed.
+
+(* ---- source-text pins (generated by harness/pinsets.py) ---- *)
+(* every function of these modules is, text for text (comments and docstrings excluded), the one the models of this
+   property were written against and validated against: harness/translate/srcdigest_t.py, Src/Pin_*.v *)
+From OV Require Import Gen.SrcDigestGen Src.Pin_mcp_write Src.Pin_mcp_validate Src.Pin_mcp_eject Src.Pin_core_hydrator Src.Pin_core_file_ops Src.Pin_schemas_loader Src.Pin_cli_main.
+Theorem C19_pin_source_text :
+  src_mcp_write_pinned /\ src_mcp_validate_pinned /\ src_mcp_eject_pinned /\ src_core_hydrator_pinned /\ src_core_file_ops_pinned /\ src_schemas_loader_pinned /\ src_cli_main_pinned.
+Proof. exact (conj src_mcp_write_pinned_ok (conj src_mcp_validate_pinned_ok (conj src_mcp_eject_pinned_ok (conj src_core_hydrator_pinned_ok (conj src_core_file_ops_pinned_ok (conj src_schemas_loader_pinned_ok src_cli_main_pinned_ok)))))). Qed.
